@@ -68,28 +68,30 @@ type KnownFinding struct {
 
 // BatchResult aggregates what a worker found on a batch of paths.
 type BatchResult struct {
-	Paths        int               `json:"paths"`
-	Decisions    int               `json:"decisions"`
-	NewBranches  int               `json:"new_branches"`
-	Obligations  int               `json:"obligations"`
-	Discharged   int               `json:"discharged"`
-	Pruned       int               `json:"pruned"`
-	Inconclusive map[string]int    `json:"inconclusive,omitempty"`
-	Violations   []Violation       `json:"violations,omitempty"`
-	Reached      map[string]int    `json:"reached,omitempty"`
-	Assumes      map[string]int    `json:"assumes,omitempty"`
-	Funcs        map[string]string `json:"funcs,omitempty"`
-	Stubs        map[string]int    `json:"stubs,omitempty"`
-	Traces       []Trace           `json:"traces,omitempty"`
-	Work         []WorkItem        `json:"work,omitempty"`
-	Instrs       int64             `json:"instrs"`
-	Queries      int               `json:"queries"`
-	QSat         int               `json:"q_sat"`
-	QUnsat       int               `json:"q_unsat"`
-	QUnknown     int               `json:"q_unknown"`
-	SolverNs     int64             `json:"solver_ns"`
-	CacheHits    int               `json:"cache_hits"`
-	MaxPathInstr int64             `json:"max_path_instrs"`
+	Paths         int               `json:"paths"`
+	Decisions     int               `json:"decisions"`
+	NewBranches   int               `json:"new_branches"`
+	Obligations   int               `json:"obligations"`
+	Discharged    int               `json:"discharged"`
+	Pruned        int               `json:"pruned"`
+	Inconclusive  map[string]int    `json:"inconclusive,omitempty"`
+	Violations    []Violation       `json:"violations,omitempty"`
+	Reached       map[string]int    `json:"reached,omitempty"`
+	Assumes       map[string]int    `json:"assumes,omitempty"`
+	Funcs         map[string]string `json:"funcs,omitempty"`
+	Stubs         map[string]int    `json:"stubs,omitempty"`
+	Traces        []Trace           `json:"traces,omitempty"`
+	Work          []WorkItem        `json:"work,omitempty"`
+	Instrs        int64             `json:"instrs"`
+	Queries       int               `json:"queries"`
+	QSat          int               `json:"q_sat"`
+	QUnsat        int               `json:"q_unsat"`
+	QUnknown      int               `json:"q_unknown"`
+	SolverNs      int64             `json:"solver_ns"`
+	CacheHits     int               `json:"cache_hits"`
+	DomainDecided int               `json:"domain_decided"`
+	GuardChecks   int               `json:"guard_checks"`
+	MaxPathInstr  int64             `json:"max_path_instrs"`
 }
 
 type inputRec struct {
@@ -113,18 +115,21 @@ type obsRec struct {
 }
 
 type explorer struct {
-	slv    *solver
-	prefix []int64
-	pos    int
-	model  map[string]uint64
-	memo   map[int]uint64
-	known  map[int]bool
-	vars   []*term
-	inputs []inputRec
-	varSeq map[string]int
-	tags   []tagRec
-	obs    []obsRec
-	work   []WorkItem
+	slv           *solver
+	prefix        []int64
+	pos           int
+	model         map[string]uint64
+	memo          map[int]uint64
+	known         map[int]bool
+	dom           map[*term]*[4]uint64 // per 8-bit variable: values allowed by the single-variable constraints asserted so far
+	tangle        map[*term]bool       // variables that occur in an asserted constraint over several variables
+	solverDecided int
+	vars          []*term
+	inputs        []inputRec
+	varSeq        map[string]int
+	tags          []tagRec
+	obs           []obsRec
+	work          []WorkItem
 
 	instrs       int64
 	instrBudget  int64
@@ -210,6 +215,91 @@ func lit(c *term, d bool) *term {
 	return tnot(c)
 }
 
+var fullDom = [4]uint64{^uint64(0), ^uint64(0), ^uint64(0), ^uint64(0)}
+
+func domEmpty(d *[4]uint64) bool { return d[0]|d[1]|d[2]|d[3] == 0 }
+
+func domFirst(d *[4]uint64) uint64 {
+	for w := 0; w < 4; w++ {
+		if d[w] != 0 {
+			for b := 0; b < 64; b++ {
+				if d[w]&(1<<uint(b)) != 0 {
+					return uint64(w*64 + b)
+				}
+			}
+		}
+	}
+	return 0
+}
+
+func (e *explorer) domOf(v *term) *[4]uint64 {
+	d := e.dom[v]
+	if d == nil {
+		c := fullDom
+		d = &c
+		e.dom[v] = d
+	}
+	return d
+}
+
+// single returns the 8-bit variable c depends on exclusively, if any.
+func single(c *term) *term {
+	v, many := c.support()
+	if many || v == nil || v.bits != 8 {
+		return nil
+	}
+	return v
+}
+
+// note records the effect of asserting literal (c == d) on domains/entanglement.
+func (e *explorer) note(c *term, d bool) {
+	if v := single(c); v != nil {
+		tt := c.truthTable()
+		dom := e.domOf(v)
+		for w := 0; w < 4; w++ {
+			if d {
+				dom[w] &= tt[w]
+			} else {
+				dom[w] &^= tt[w]
+			}
+		}
+		return
+	}
+	e.entangle(c)
+}
+
+func (e *explorer) entangle(c *term) {
+	seen := map[int]bool{}
+	var walk func(t *term)
+	walk = func(t *term) {
+		if seen[t.id] {
+			return
+		}
+		seen[t.id] = true
+		if t.op == "var" {
+			e.tangle[t] = true
+			return
+		}
+		if v, many := t.support(); !many {
+			if v != nil {
+				e.tangle[v] = true
+			}
+			return
+		}
+		for _, a := range t.args {
+			walk(a)
+		}
+	}
+	walk(c)
+}
+
+// assertLit adds literal (c == d) to the path condition.
+func (e *explorer) assertLit(c *term, d bool) {
+	e.slv.assert(lit(c, d))
+	e.note(c, d)
+	e.learn(c, d)
+}
+
 // branch decides a symbolic condition, forking when both sides are feasible.
 func (e *explorer) branch(c *term) bool {
 	if c.isConst() {
@@ -222,27 +312,61 @@ func (e *explorer) branch(c *term) bool {
 	if e.pos < len(e.prefix) {
 		d := e.prefix[e.pos] != 0
 		e.pos++
-		e.slv.assert(lit(c, d))
-		e.learn(c, d)
+		e.assertLit(c, d)
 		return d
 	}
 	e.res.NewBranches++
 	d := e.eval(c) != 0
-	res, m := e.slv.checkWith(lit(c, !d), e.vars, true)
-	switch res {
-	case "sat":
+	otherFeasible := false
+	var otherModel map[string]uint64
+	decided := false
+	if v := single(c); v != nil {
+		// byte-domain pre-filter: exact when the variable is not entangled with others
+		tt := c.truthTable()
+		dom := e.domOf(v)
+		var other [4]uint64
+		for w := 0; w < 4; w++ {
+			if d {
+				other[w] = dom[w] &^ tt[w]
+			} else {
+				other[w] = dom[w] & tt[w]
+			}
+		}
+		if domEmpty(&other) {
+			decided = true // the other side is infeasible (domains over-approximate)
+			e.res.DomainDecided++
+		} else if !e.tangle[v] {
+			decided = true
+			otherFeasible = true
+			e.res.DomainDecided++
+			otherModel = make(map[string]uint64, len(e.model)+1)
+			for k, x := range e.model {
+				otherModel[k] = x
+			}
+			otherModel[v.name] = domFirst(&other)
+		}
+	}
+	if !decided {
+		e.solverDecided++
+		res, m := e.slv.checkWith(lit(c, !d), e.vars, true)
+		switch res {
+		case "sat":
+			otherFeasible = true
+			otherModel = m
+		case "unsat":
+		default:
+			e.incon("unknown-feasibility")
+		}
+	}
+	if otherFeasible {
 		other := make([]int64, len(e.prefix)+1)
 		copy(other, e.prefix)
 		other[len(e.prefix)] = int64(b2u(!d))
-		e.work = append(e.work, WorkItem{Prefix: other, Model: m})
-	case "unsat":
-	default:
-		e.incon("unknown-feasibility")
+		e.work = append(e.work, WorkItem{Prefix: other, Model: otherModel})
 	}
-	e.slv.assert(lit(c, d))
+	e.assertLit(c, d)
 	e.prefix = append(e.prefix, int64(b2u(d)))
 	e.pos++
-	e.learn(c, d)
 	return d
 }
 
@@ -281,11 +405,11 @@ func (e *explorer) concretize(t *term) uint64 {
 		v := uint64(e.prefix[e.pos])
 		e.pos++
 		c := teq(t, constBV(v, t.bits))
-		e.slv.assert(c)
-		e.learn(c, true)
+		e.assertLit(c, true)
 		return v
 	}
 	e.res.NewBranches++
+	e.solverDecided++
 	first := e.eval(t)
 	e.slv.push()
 	e.slv.assert(tnot(teq(t, constBV(first, t.bits))))
@@ -314,8 +438,7 @@ func (e *explorer) concretize(t *term) uint64 {
 	}
 	e.slv.pop()
 	c := teq(t, constBV(first, t.bits))
-	e.slv.assert(c)
-	e.learn(c, true)
+	e.assertLit(c, true)
 	e.prefix = append(e.prefix, int64(first))
 	e.pos++
 	return first
@@ -338,11 +461,11 @@ func (e *explorer) assume(c *term, label string) {
 		}
 		return
 	}
-	e.slv.assert(c)
-	e.learn(c, true)
+	e.assertLit(c, true)
 	if e.eval(c) != 0 {
 		return
 	}
+	e.solverDecided++
 	switch e.slv.check() {
 	case "sat":
 		e.setModel(e.slv.getValues(e.vars))
@@ -450,6 +573,7 @@ func (e *explorer) assertProp(c *term, label string) {
 		e.res.Discharged++
 		return
 	}
+	e.solverDecided++
 	res, m := e.slv.checkWith(tnot(c), e.vars, true)
 	switch res {
 	case "unsat":
@@ -459,8 +583,7 @@ func (e *explorer) assertProp(c *term, label string) {
 	case "sat":
 		e.fail("assert", label, "", tnot(c), m)
 		// continue on the inputs for which the obligation holds
-		e.slv.assert(c)
-		e.learn(c, true)
+		e.assertLit(c, true)
 		if e.eval(c) == 0 {
 			switch e.slv.check() {
 			case "sat":
@@ -471,8 +594,7 @@ func (e *explorer) assertProp(c *term, label string) {
 		}
 	default:
 		e.incon("unknown-assertion:" + label)
-		e.slv.assert(c)
-		e.learn(c, true)
+		e.assertLit(c, true)
 		if e.eval(c) == 0 {
 			panic(pathAbort{"unknown", "assertion unknown and model falsifies it"})
 		}
@@ -570,6 +692,9 @@ func (w *Worker) runPath(it WorkItem, seed uint64) {
 		e.setModel(map[string]uint64{})
 	}
 	e.known = map[int]bool{}
+	e.dom = map[*term]*[4]uint64{}
+	e.tangle = map[*term]bool{}
+	e.solverDecided = 0
 	e.vars = nil
 	e.inputs = nil
 	e.varSeq = map[string]int{}
@@ -624,17 +749,22 @@ func (w *Worker) runPath(it WorkItem, seed uint64) {
 		panic(engineError{fmt.Sprintf("non-deterministic replay: prefix of %d decisions, only %d consumed", len(e.prefix), e.pos)})
 	}
 	if completed {
-		// The path's own feasibility is re-checked once (guards the local evaluator).
-		switch e.slv.check() {
-		case "sat":
-			if e.traceEvery > 0 && (prefixHash(e.prefix)^seed)%uint64(e.traceEvery) == 0 {
-				m := e.slv.getValues(e.vars)
-				e.res.Traces = append(e.res.Traces, e.trace(m))
+		h := prefixHash(e.prefix) ^ seed
+		// The path's own feasibility is re-checked by the solver (guards the local evaluator
+		// and the byte-domain pre-filter): always when the solver took part in the path,
+		// on a 1-in-8 sample of the paths decided by domains alone.
+		if e.solverDecided > 0 || h%8 == 0 {
+			e.res.GuardChecks++
+			switch e.slv.check() {
+			case "sat":
+			case "unsat":
+				panic(engineError{"explored path is infeasible: local evaluator/pre-filter and solver disagree"})
+			default:
+				e.incon("unknown-final-check")
 			}
-		case "unsat":
-			panic(engineError{"explored path is infeasible: local evaluator and solver disagree"})
-		default:
-			e.incon("unknown-final-check")
+		}
+		if e.traceEvery > 0 && (h>>3)%uint64(e.traceEvery) == 0 && len(e.res.Traces) < 8 {
+			e.res.Traces = append(e.res.Traces, e.trace(e.model))
 		}
 	}
 	e.slv.pop()
